@@ -410,6 +410,10 @@ func init() {
 			return in.zeroResults(fn)
 		})
 	}
+	reg("time.Sleep", func(in *Interp, caller *frame, pos token.Pos, fn *ssa.Function, args []Value) Value {
+		in.yield()
+		return nil
+	})
 	reg("runtime.Gosched", func(in *Interp, caller *frame, pos token.Pos, fn *ssa.Function, args []Value) Value {
 		in.yield()
 		return nil
